@@ -380,6 +380,12 @@ def run_engine(prop, engine, tier, seed, runs, n_workers, wall, scratch):
                 det_report.setdefault("sut_nondeterminism", []).append(ln["i"])
             else:
                 det_report["mismatches"].append(ln["i"])
+                try:  # keep both logs for diagnosis
+                    os.makedirs(os.path.join(VERIF, "replays"), exist_ok=True)
+                    with open(os.path.join(VERIF, "replays", f"determinism-{prop}-{engine}-{seed}-{ln['i']}.json"), "w") as f:
+                        json.dump({"plan": a.get("plan") or b.get("plan"), "main": ea, "probe": eb}, f, indent=1)
+                except OSError:
+                    pass
     return lines, errors + derrors, det_report, wall_s
 
 
